@@ -6,6 +6,7 @@ stores against a dict model; from every reachable state every op (incl. all 31
 field subsets for update, and every op on absent buckets) is applied and the
 full listing / metadata / events are compared, error types checked, and
 "changes nothing" checked on the raw tables."""
+from copy import deepcopy
 import itertools
 import json
 from datetime import datetime, timedelta, timezone
@@ -71,7 +72,7 @@ def fresh_value(field, cur):
 
 
 def norm_meta(md):
-    out = {"id": md["id"], "type": md["type"], "client": md["client"], "hostname": md["hostname"], "data": md.get("data")}
+    out = {"id": md["id"], "type": md["type"], "client": md["client"], "hostname": md["hostname"], "data": deepcopy(md.get("data"))}
     c = md["created"]
     out["created"] = S.us_of(iso8601.parse_date(c) if isinstance(c, str) else c)
     out["name"] = md.get("name")
@@ -88,8 +89,19 @@ def observe(ds):
     out = {}
     for bid in lst:
         m1 = norm_meta(lst[bid])
+        # ... and the harness scribbles on what it was handed: a description is the caller's to keep, so the
+        # next describe / listing must not show the scribble (seeded: parsed bucket data shared through a cache)
         try:
-            m2 = norm_meta(ds[bid].metadata())
+            if isinstance(lst[bid].get("data"), dict):
+                lst[bid]["data"]["__scribble__"] = [bid]
+            lst[bid]["type"] = "scribbled"
+        except Exception:
+            pass
+        try:
+            raw_md = ds[bid].metadata()
+            m2 = norm_meta(raw_md)
+            if isinstance(raw_md.get("data"), dict):
+                raw_md["data"]["__scribble2__"] = 1
         except Exception as e:
             probs.append(("describe-listed-bucket-raised", f"{bid}: {type(e).__name__} {e}"))
             m2 = m1
